@@ -15,7 +15,12 @@
                  (bank metadata base<->alias, erc20 pair owned externally): sending burns the
                  sender's base coins and the module holds bridge-denom coins; a refund is the reverse;
                  IncreaseBridgeFee burns the payer's bridge-denom coins; a bridge-call refund mints.
-     ledger key = (account, token, which) with which = 0 base denom, 1 bridge denom (always 0 for KNative).
+       KCoin   = a coin registered in x/erc20 (RegisterCoin: module-owned ERC-20, the bridge denom as alias):
+                 sending burns the sender's base coins and the same amount of the module's bridge-denom float,
+                 a refund mints; a bridge-call refund goes through the erc20 module's alias conversion and ends as base
+                 coins (call created by MsgBridgeCall) or as ERC-20 tokens (call created by the bridgeCall precompile).
+     ledger key = (account, token, which) with which = 0 base denom, 1 bridge denom (always 0 for KNative),
+     2 ERC-20 balance (KCoin only); account -1 is the crosschain module, -2 the erc20 module.
    * uint64 arithmetic of CalExternalTimeoutHeight is written out modulo 2^64.
    * comparison operators of the time-out rules come from gen/Gen_TimeoutRules.v (read from the source
      on every run). *)
@@ -28,7 +33,9 @@ Definition two64 : Z := 2 ^ 64.
 Definition u64 (x : Z) : Z := x mod two64.
 Definition MODULE : Z := -1.
 
-Inductive tkind := KNative | KExt.
+Definition ERC20MOD : Z := -2.
+
+Inductive tkind := KNative | KExt | KCoin.
 
 Record tx := { tx_id : Z; tx_sender : Z; tx_dest : Z; tx_token : Z; tx_amount : Z; tx_fee : Z }.
 Record batch := { b_nonce : Z; b_timeout : Z; b_txs : list tx; b_token : Z; b_feercv : Z; b_block : Z }.
@@ -77,6 +84,7 @@ Inductive op :=
 | BatchExecuted (token nonce h : Z)
 | Observe (h : Z)
 | BridgeCall (sender refund : Z) (coins : list (Z * Z)) (to : Z) (data memo : list Z)
+| BridgeCallP (sender refund value : Z) (tokens : list (Z * Z)) (to : Z) (data memo : list Z)
 | ObserveResult (nonce : Z) (ok : bool) (h : Z)
 | ExecResult (e : Z)
 | NextBlock
@@ -122,31 +130,40 @@ Definition base_to_bridge (l : ledger) (k : tkind) (holder t amt : Z) : R ledger
   match k with
   | KNative => do l1 <- debit l (holder, t, 0) amt; ROk (credit l1 (MODULE, t, 0) amt)
   | KExt => do l1 <- debit l (holder, t, 0) amt; ROk (credit l1 (MODULE, t, 1) amt)
+  | KCoin => do l1 <- debit l (holder, t, 0) amt; debit l1 (MODULE, t, 1) amt
   end.
 (* many_to_one.go BridgeTokenToBaseCoin (DepositBridgeToken + ConversionCoin), net effect *)
 Definition bridge_to_base (l : ledger) (k : tkind) (holder t amt : Z) : R ledger :=
   match k with
   | KNative => do l1 <- debit l (MODULE, t, 0) amt; ROk (credit l1 (holder, t, 0) amt)
   | KExt => do l1 <- debit l (MODULE, t, 1) amt; ROk (credit l1 (holder, t, 0) amt)
+  | KCoin => ROk (credit (credit l (MODULE, t, 1) amt) (holder, t, 0) amt)
   end.
 (* batch_fee.go AddUnbatchedTxBridgeFee: origin/converted denom is locked in the module, any other is burnt *)
 Definition pay_added_fee (l : ledger) (k : tkind) (payer t amt : Z) : R ledger :=
   match k with
   | KNative => do l1 <- debit l (payer, t, 0) amt; ROk (credit l1 (MODULE, t, 0) amt)
-  | KExt => debit l (payer, t, 1) amt
+  | KExt | KCoin => debit l (payer, t, 1) amt
   end.
-(* bridge_call_in.go bridgeCallTransferCoins as used by HandleOutgoingBridgeCallRefund (call created by a message) *)
-Fixpoint refund_coins (ts : list (Z * tkind)) (l : ledger) (refund : Z) (coins : list (Z * Z)) : R ledger :=
+(* bridge_call_in.go bridgeCallTransferCoins + bridgeCallTransferTokens as used by HandleOutgoingBridgeCallRefund;
+   [msg] = the call carries the from-msg marker (created by MsgBridgeCall): the refund stays in the bank; otherwise
+   (created by the bridgeCall precompile) it is converted to ERC-20 for the REFUND address. A plain bridge token has no
+   ERC-20 pair for its bridge denom: that conversion fails (and the caller panics). *)
+Fixpoint refund_coins (ts : list (Z * tkind)) (msg : bool) (l : ledger) (refund : Z) (coins : list (Z * Z)) : R ledger :=
   match coins with
   | [] => ROk l
   | (t, amt) :: r =>
       match kind_of ts t with
       | None => RErr
       | Some k =>
-          if amt <=? 0 then refund_coins ts l refund r
+          if amt <=? 0 then refund_coins ts msg l refund r
           else match k with
-               | KNative => do l1 <- debit l (MODULE, t, 0) amt; refund_coins ts (credit l1 (refund, t, 0) amt) refund r
-               | KExt => refund_coins ts (credit l (refund, t, 1) amt) refund r
+               | KNative => do l1 <- debit l (MODULE, t, 0) amt; refund_coins ts msg (credit l1 (refund, t, 0) amt) refund r
+               | KExt => if msg then refund_coins ts msg (credit l (refund, t, 1) amt) refund r else RErr
+               | KCoin =>
+                   let l1 := credit l (ERC20MOD, t, 1) amt in
+                   if msg then refund_coins ts msg (credit l1 (refund, t, 0) amt) refund r
+                   else refund_coins ts msg (credit (credit l1 (ERC20MOD, t, 0) amt) (refund, t, 2) amt) refund r
                end
       end
   end.
@@ -265,7 +282,7 @@ Definition delete_call (s : state) (n : Z) : state :=
   end.
 (* HandleOutgoingBridgeCallRefund: any error panics *)
 Definition refund_call (cs : cause) (s : state) (c : bcall) : R (state * list event) :=
-  do l <- must (refund_coins (toks s) (bal s) (c_refund c) (c_tokens c));
+  do l <- must (refund_coins (toks s) (existsb (Z.eqb (c_nonce c)) (from_msg s)) (bal s) (c_refund c) (c_tokens c));
   ROk (set_bal s l, [EvCallRefund (c_nonce c) (c_refund c) (c_tokens c) cs]).
 
 (* abci.go cleanupTimeOutBridgeCall: ascending nonce, stop at the first call that has not timed out *)
@@ -336,7 +353,7 @@ Definition do_increase (s : state) (id who add token which : Z) : R (state * lis
       match kind_of (toks s) token with
       | None => RErr
       | Some k =>
-          if (match k with KExt => which =? 0 | KNative => false end) then RErr    (* GetContractByBridgeDenom *)
+          if (match k with KExt | KCoin => which =? 0 | KNative => false end) then RErr    (* GetContractByBridgeDenom *)
           else if negb (tx_token x =? token) then RErr
           else
             do l <- pay_added_fee (bal s) k who token add;
@@ -352,7 +369,7 @@ Definition do_request_batch (s : state) (token which feercv basefee minfee : Z) 
   match kind_of (toks s) token with
   | None => RErr
   | Some k =>
-      if (match k with KExt => which =? 0 | KNative => false end) then RErr else
+      if (match k with KExt | KCoin => which =? 0 | KNative => false end) then RErr else
       if negb auth then RErr else
       let max := p_max_elems (prm s) in
       if max =? 0 then RErr else
@@ -447,6 +464,34 @@ Definition do_bridge_call (s : state) (sender refund : Z) (coins : list (Z * Z))
   let s1 := set_bal (set_next_call s (n + 1)) l in
   ROk (set_calls s1 (calls s1 ++ [c]) ((sender, n) :: by_sender s1) (n :: from_msg s1), [EvCallCreated n t]).
 
+(* x/crosschain/precompile/bridge_call.go: msg.value of FX (handlerOriginToken) and ERC-20 tokens (EvmToBaseCoin =
+   ConvertERC20: the caller's tokens are burnt, the erc20 module releases the base coins) become base coins of the caller,
+   then Keeper.AddOutgoingBridgeCall; no from-msg marker. The coins keep the order value, tokens. *)
+Fixpoint erc20_to_base (ts : list (Z * tkind)) (l : ledger) (holder : Z) (tokens : list (Z * Z)) : R ledger :=
+  match tokens with
+  | [] => ROk l
+  | (t, a) :: r =>
+      match kind_of ts t with
+      | Some KCoin =>
+          if a <=? 0 then RErr else
+          do l1 <- debit l (holder, t, 2) a; do l2 <- debit l1 (ERC20MOD, t, 0) a;
+          erc20_to_base ts (credit l2 (holder, t, 0) a) holder r
+      | _ => RErr
+      end
+  end.
+Definition do_bridge_call_p (s : state) (sender refund value : Z) (tokens : list (Z * Z)) (to : Z) (data memo : list Z) : R (state * list event) :=
+  if value <? 0 then RErr else
+  let coins := (if 0 <? value then [(0, value)] else []) ++ tokens in
+  do l0 <- erc20_to_base (toks s) (bal s) sender tokens;
+  do l <- lock_coins (toks s) l0 sender coins;
+  do t <- cal_timeout s (p_call_timeout (prm s));
+  if call_build_reject t then RErr else
+  let n := next_call s in
+  let c := {| c_nonce := n; c_timeout := t; c_block := fxh s; c_sender := sender; c_refund := refund;
+              c_tokens := coins; c_to := to; c_data := data; c_memo := memo; c_evnonce := 0 |} in
+  let s1 := set_bal (set_next_call s (n + 1)) l in
+  ROk (set_calls s1 (calls s1 ++ [c]) ((sender, n) :: by_sender s1) (from_msg s1), [EvCallCreated n t]).
+
 (* Params.ValidateBasic, the four fields used here (all uint64) *)
 Definition params_ok (p : params) : bool :=
   (100 <=? p_avg_block p) && (60000 <=? p_batch_timeout p) && (100 <=? p_avg_ext p) && (3600000 <? p_call_timeout p)
@@ -461,6 +506,7 @@ Definition exec (s : state) (o : op) : R (state * list event) :=
   | BatchExecuted token nonce h => do_batch_executed s token nonce h
   | Observe h => do_observe s h
   | BridgeCall sender refund coins to data memo => do_bridge_call s sender refund coins to data memo
+  | BridgeCallP sender refund value tokens to data memo => do_bridge_call_p s sender refund value tokens to data memo
   | ObserveResult nonce ok h => do_observe_result s nonce ok h
   | ExecResult e => do_exec_result s e
   | NextBlock => ROk (set_fxh s (fxh s + 1), [])
